@@ -227,7 +227,13 @@ def headerStep (st : HState) (line : Bytes) (strip : Int) : Except Exn (HState Ã
     | (none, st) =>
       if p.format = .unknown âˆ¨ p.format = .context then
         if last = .context âˆ§ startsWith line "*** " then
-          .ok ({ st with patch := { p with format := .context } }, false)
+          -- the old range of the first hunk: its start feeds the Add inference after the loop
+          let hunk' : Hunk :=
+            if endsWith line " ****" then
+              let (ok, s, _) := parseContextRange (-1) (-1) (ctxRangeText line)
+              if ok then { st.hunk with old := { st.hunk.old with start := s } } else st.hunk
+            else st.hunk
+          .ok ({ st with patch := { p with format := .context }, hunk := hunk' }, false)
         else if startsWith line "***************" then
           .ok ({ st with thisLooks := .context, ltfh := st.lines }, true)
         else .ok (st, true)
@@ -546,7 +552,13 @@ def parseBody (par : Parser) (p : Patch) : Except Exn (Patch Ã— Parser) :=
   let fuel := par.s.rest.length + 2
   match p.format with
   | .unified | .git => (parseUnifiedBody par).map fun (hs, par') => ({ p with hunks := p.hunks ++ hs }, par')
-  | .context => (parseContextBody fuel par []).map fun (hs, par') => ({ p with hunks := p.hunks ++ hs }, par')
+  | .context => (parseContextBody fuel par []).map fun (hs, par') =>
+      let p1 := { p with hunks := p.hunks ++ hs }
+      -- a first hunk that leaves nothing behind means the file is removed
+      let p2 := match p1.hunks with
+        | h :: _ => if p1.operation = .change âˆ§ h.new.start = 0 âˆ§ h.new.count = 0 then { p1 with operation := .delete } else p1
+        | [] => p1
+      (p2, par')
   | .normal => (parseNormalBody fuel par []).map fun (hs, par') => ({ p with hunks := p.hunks ++ hs }, par')
   | _ => .error .runtimeError
 
